@@ -101,4 +101,19 @@ PROPS = {
                "with shape (C11 scenes, obstacles around the half-way configuration, every second robot with large safety distances), "
                "per-node collides()/compliant() of the same robot, cancellation before the call and from another thread during it. "
                "non-trivial = a path was returned"),
+    "C19": cfg(1000, 100000, ["C19."],
+               "writer->reader round trips on the zoo with integral-valued lengths (0, 1, -2, k/8), tiny and negative values, dof 5/6, "
+               "zero sign for J6, offsets incl. 0, +-pi/2, 1e-4; grammar-generated files in the documented format (integers/reals/"
+               "exponent notation, offsets as radians / deg(x) bare or quoted / integers, flow and block arrays, 5 or 6 entries, dof at "
+               "top level / nested / absent, comments, missing arrays) with the values they must parse to; malformed input: 19 "
+               "structured damages (empty file, comments only, scalar/list documents, wrong lengths, bad deg(), wrong types, .inf/.nan, "
+               "second document, dof: 300) and byte-level damage / random bytes. Each line carries yaml-rust2's own tree of the text. "
+               "non-trivial = the reader returned Ok"),
+    "C20": cfg(1000, 50000, ["C20."],
+               "descriptions generated from OPW parameters (zoo) in the supported layouts (c2 on z or x, b on joint 3, c3 on joint 4 or "
+               "5 along x/y/z, c4 on x or z) x axis signs x limits (absent, radians, ${radians(deg)}) x shuffled declaration order x "
+               "nesting inside other elements x extra link elements x identical second copy x name decorations (prefix macros, case, "
+               "underscores, punctuation) or explicit joint-name lists; derived error cases (missing joint, conflicting duplicate, "
+               "truncated, non-numeric, empty, wrong value count); 2n generated names through the private preprocess_joint_name (hook). "
+               "Each line carries sxd-document's own DOM. non-trivial = extraction returned Ok"),
 }
